@@ -485,13 +485,27 @@ class Program:
                     b = f.value
                     bname = b.id if isinstance(b, ast.Name) else (
                         b.attr if isinstance(b, ast.Attribute) else "")
-                    if bname not in self.classes and not bname[:1].isupper():
+                    # registries of classes (STEREO_CLASSES[name](..),
+                    # {"MolGraph": MolGraph, ..}[name]()) and generic aliases
+                    # (ChangeDict[AtomStereo]()) are constructor calls
+                    registry = isinstance(b, ast.Dict) and b.values and all(
+                        isinstance(v, ast.Name) and v.id in self.classes
+                        for v in b.values)
+                    if isinstance(b, ast.Name):
+                        defs = [a.value for a in ast.walk(fi.node)
+                                if isinstance(a, ast.Assign) and any(
+                                    isinstance(t, ast.Name) and t.id == b.id
+                                    for t in a.targets)]
+                        local_table = bool(defs) and all(
+                            isinstance(d, ast.Dict) and not all(
+                                isinstance(v, ast.Name)
+                                and v.id in self.classes for v in d.values)
+                            for d in defs)
+                    else:
+                        local_table = isinstance(b, ast.Dict) and not registry
+                    if local_table:
                         local.append("calls through a table of callables "
                                      f"(`{norm(f, 50)}(..)`)")
-                elif isinstance(f, ast.Name) and f.id in inner and \
-                        f"{fi.qual}.<local>{f.id}" not in BASELINE_LOCALS:
-                    local.append(f"calls the local function `{f.id}` (not "
-                                 "inlinable)")
         # instances of classes outside the inventory that are called
         from .normalise import baseline
         known_cls = {q.split(":")[1].split(".")[0] for q in baseline()
